@@ -157,4 +157,26 @@ example (g : Nat → Node → Stmt) (f'' sc : Nat) (rest : Clauses) (e : Sig) (s
       Ecal.Parse.Node.tok, allSome]
   exact spec_binding_clause g f'' sc exExc6 (exIdE 4 10) exStm [101] rest e s ho hb
 
+/-! `except r"E1" e {⏎}` (strings, identifier, block): children string|5|4531|0|0|3|10|0; identifier|7|65|0|1|3|16|0; statements -/
+def exExc7 : Node := exNode "except" (some (exTok 70 "except" 3 3)) [some exS5, some (exIdE 3 16), some exStm]
+
+/-- `spec_first_listed_clause_ident` on that clause -/
+example (g : Nat → Node → Stmt) (f sc : Nat) (rest : Clauses) (e : Sig) (s : St) :
+    Spec.handle (clauseOfNode g (f+2) sc exExc7 rest) e s =
+      if ([exS5].map textOf).any (fun b => bytesToString b == errType e) then
+        (match Spec.exec (clauseBody g sc exExc7 exStm) s with
+         | (.normal _, s2) => (.normal Val.null, s2)
+         | (o, s2) => (o, s2))
+      else Spec.handle rest e s := by
+  have ho : clauseShape exExc7 = .other := by
+    simp [clauseShape, exExc7, exS5, exIdE, exStm, exNode, Ecal.Parse.Node.children, Ecal.Parse.Node.name, allSome]
+  have hb : bindingShape exExc7 = .typedIdent exS5 [] (exIdE 3 16) exStm := by
+    simp [bindingShape, exExc7, exS5, exIdE, exStm, exNode, Ecal.Parse.Node.children, Ecal.Parse.Node.name,
+      Ecal.Parse.Node.tok, allSome]
+  refine spec_first_listed_clause_ident g f sc exExc7 exS5 (exIdE 3 16) exStm [] rest e s ho hb ?_
+  intro x hx
+  rcases List.mem_cons.1 hx with rfl | hx
+  · exact PlainStr.of_raw rfl rfl rfl
+  · cases hx
+
 end Ecal.Props.C04
